@@ -26,7 +26,8 @@ class Case:
         self.crashed = False
 
     def describe(self):
-        return dict(records=self.records if len(self.records) <= 40 else self.records[:40] + [("...", "%d more" % (len(self.records) - 40))],
+        small = sum(len(n) + len(q) for n, q in self.records) <= 3000000      # a replay must be able to re-run the case: keep the whole input unless it is huge
+        return dict(records=self.records if small else self.records[:40] + [("...", "%d more" % (len(self.records) - 40))],
                     type=self.type, gpo=self.gpo, gpe=self.gpe, tgpe=self.tgpe,
                     threads=self.threads, fmt=self.fmt, api=self.api, jitter=self.jitter, tag=self.tag,
                     intext=self.intext, status=self.status, stderr_tail=self.stderr[-1500:])
